@@ -34,6 +34,7 @@ pub fn type_name(t: Type) -> String {
 
 /// Decoder accessor by name at (buf, pos).
 pub fn acc(name: &str, buf: &[u8], pos: usize) -> Value {
+    crate::alloc::set_case("acc", name, buf);
     let mut d = Decoder::new(buf);
     d.set_position(pos);
     match name {
